@@ -8,6 +8,7 @@
 EXTENDS TxAuth, Json
 CaseSeq == SetToSeq(CaseIds)
 MutSeq == SetToSeq(UNION {{[op |-> "mut", t |-> t, m |-> m] : m \in MutsFor(t)} : t \in RichBases})
+CbSeq == SetToSeq({[op |-> "cb", r |-> r] : r \in Riders})
 (* sections with many patterns are enumerated with one item only *)
 NItems(sec) == IF Cardinality(ItemPats(sec)) > 8 THEN 1 ELSE 2
 SecDump(v, sec) == [name |-> sec.name, list |-> sec.list, f |-> sec.f, signs |-> sec.signs,
@@ -23,7 +24,7 @@ Wholes(v) == UNION {UNION {{[b EXCEPT ![s.name] = st] : st \in SecStructs(s, 1)}
 GramDump(v) == [v |-> v, secs |-> [i \in DOMAIN Gram(KA, v) |-> SecDump(v, Gram(KA, v)[i])], wholes |-> SetToSeq(Wholes(v))]
 DumpAll == /\ JsonSerialize("out/b_0.json", <<[op |-> "schema", fields |-> FieldTable]>>)
            /\ JsonSerialize("out/b_1.json", [i \in DOMAIN CaseSeq |-> LET t == CaseOf(CaseSeq[i]) IN [op |-> "case", t |-> t, hon |-> Honest(t)]])
-           /\ JsonSerialize("out/b_2.json", MutSeq)
+           /\ JsonSerialize("out/b_2.json", MutSeq \o CbSeq)
            /\ JsonSerialize("out/b_3.json", <<GramDump(1), GramDump(2), GramDump(3)>>)
 GNext == phase = "init" /\ DumpAll /\ phase' = "dumped" /\ UNCHANGED <<tx, orig, mut, verdict, hist>>
 GSpec == Init /\ [][GNext]_vars
